@@ -8,7 +8,7 @@ CFG = {
     "level_text": "Every history over a 60-operation alphabet (Mesh methods, meshops transformers, repeat, primitives constructors, the four format writers) is executed on the real code from four initial pools (two of them deliberately non-initial: values that already own spare slice capacity, values sharing package-level storage); after every transition every live value is re-read through the public accessors and must be bit-identical to its first reading, and an operation on bit-identical operands must return the same mesh in every history. Quick: full alphabet to depth 2 and extending/aliasing sub-alphabet x2 then full alphabet (depth 3); thorough: depth 3 / depth 4 (last step: extending + observing operations)." + twin_text("the 50-odd goroutine-free operations of the alphabet on one shared pair of mesh values (one of them owning spare capacity), each beside six partners (Append, Translate, WeldByFloat3Attribute, SetFloat3Attribute, obj.WriteMesh, RemoveUnusedIndices), plus every operation beside itself with the two operands exchanged; the digest covers the results and both shared operands afterwards") + " " + "Further operations in the alphabet: mirroring transforms (ApplyTRS mirrored in one and in three axes, Scale mirrored in y, repeat.Mesh with a mirrored copy) and 'identity' operations that hand the mesh over by pointer (gltf.WriteBinary / WriteText through PolyformModel.Mesh) — the value behind the pointer is compared afterwards.",
     "level_note": "Trusted: the public-accessor digest (meshlib.QuickHash). Depth-bounded: aliasing that needs more than 4 derivations, or meshes larger than the seeds (slice growth classes differ), is not covered. Operations producing ill-formed meshes are not carried further (C02's domain).",
     "jobs": [{"variant": "plain-c01", "id": "C01", "mem_kb": 8 * 1024 * 1024, "share": 0.85}, twin_job("C01T")],
-    "budget": {"quick": 90, "thorough": 2400},
+    "budget": {"quick": 150, "thorough": 2400},
     "rule": "every history (pool, op sequence with operand choices) up to the depth bound is executed; non-trivial = history of length >= 2 (a derivation from a derived or previously used value); distinct by (pool, step list)",
     "assumptions": COMMON_ASSUME + ["history depth <= 4; seeds of 2-3 small meshes per pool; operation parameters fixed per alphabet entry"],
 }
